@@ -364,6 +364,29 @@ func runCarrierCase(c *CarrierCase) *CarrierResult {
 				}
 			}
 		}
+		// blocks that are views of one over-allocated buffer with a foreign block in between (header,
+		// separator, body): the result must be the concatenation and the inputs must stay untouched
+		if len(data) >= 2 {
+			k := 1 + rnd.Intn(len(data)-1)
+			rec := make([]byte, len(data), 2*len(data)+16)
+			copy(rec, data)
+			sep := []byte(": ")
+			blocks := [][]byte{rec[:k], sep, rec[k:]}
+			want := append(append(append([]byte(nil), data[:k]...), sep...), data[k:]...)
+			got, err := utils.ToBytes(blocks)
+			if err != nil || !bytes.Equal(got, want) {
+				fail("tobytes/aliased-vec", fmt.Sprintf("utils.ToBytes([][]byte{rec[:%d], sep, rec[%d:]}) (blocks sharing one buffer, %d bytes) returned %d bytes that are not their concatenation", k, k, len(data), len(got)))
+			}
+			if !bytes.Equal(rec[:len(data)], data) {
+				fail("tobytes/input-modified", "utils.ToBytes modified the caller's blocks")
+			}
+			r, err := utils.ToReader([][]byte{rec[:k], sep, rec[k:]})
+			if err == nil {
+				if got, _ := io.ReadAll(r); !bytes.Equal(got, want) {
+					fail("toreader/aliased-vec", "utils.ToReader over blocks sharing one buffer does not yield their concatenation")
+				}
+			}
+		}
 		if n := utils.CountOf(splitParts(data, 3)); int(n) != len(data) {
 			fail("countof", fmt.Sprintf("utils.CountOf returned %d for %d bytes", n, len(data)))
 		}
